@@ -120,6 +120,10 @@ def check_pages(doc, p, control_doc=None):
     vars_ = all_vars(p)
     problems, stats = [], collections.Counter()
     seen = collections.Counter()
+    exposed, created = collections.Counter(), collections.Counter()
+
+    def markup(text):
+        return any(ch in str(text) for ch in "<>&")
     pages = sorted(q for q in doc.rglob("*.html") if q.relative_to(doc).parts[0] in
                    ("module", "type", "proc", "interface", "namelist", "lists", "program"))
     for page in pages:
@@ -163,6 +167,10 @@ def check_pages(doc, p, control_doc=None):
                     if any(ch in want for ch in "<>&\"'\\") or "  " in want:
                         stats["cells_hostile"] += 1
                     ntags = len([t for t in cell.find_all(True) if t.name not in ("strong", "span", "a")])
+                    if markup(want):
+                        exposed[SITE_OF_COLUMN[col]] += 1
+                        if squash(got) != squash(want) or ntags:
+                            created[SITE_OF_COLUMN[col]] += 1
                     if squash(got) != squash(want) or ntags:
                         problems.append(dict(page=rel, what="cell-text", site=SITE_OF_COLUMN[col], column=col,
                                              name=name, form=d.get("form"), expected=want, got=got,
@@ -185,6 +193,10 @@ def check_pages(doc, p, control_doc=None):
                                        ("Initial", 2, "macros.html:variable.initial | e#1")):
                     got = browser_text(tds[idx])
                     stats["cells"] += 1
+                    if markup(exp[col]):
+                        exposed[site] += 1
+                        if squash(got) != squash(exp[col]) or tds[idx].find_all(True):
+                            created[site] += 1
                     if squash(got) != squash(exp[col]) or tds[idx].find_all(True):
                         problems.append(dict(page=rel, what="cell-text", site=site, column="namelist-" + col, name=name,
                                              form=d.get("form"), expected=exp[col], got=got,
@@ -199,6 +211,10 @@ def check_pages(doc, p, control_doc=None):
                 if pr["bind"]:
                     want = f"bind(c, name={pr['bind']})"
                     ntags = len([x for x in h.find_all(True) if x.name not in ("a", "small", "span", "button")])
+                    if markup(want):
+                        exposed["macros.html:proc.bindC#1"] += 1
+                        if squash(want) not in squash(t) or ntags:
+                            created["macros.html:proc.bindC#1"] += 1
                     if squash(want) not in squash(t) or ntags:
                         problems.append(dict(page=rel, what="heading-text", site="macros.html:proc.bindC#1",
                                              name=pr["name"], expected=want, got=t, extra_tags=ntags,
@@ -230,12 +246,17 @@ def check_pages(doc, p, control_doc=None):
                         else "macros.html:proc.retvar.full_declaration | relurl(page_url)#1")
                 problems.append(dict(page=rel, what="return-value", site=site, expected=cands,
                                      got=body, extra_tags=len(h.find_all(True))))
+                if markup(cands):
+                    exposed[site] += 1
+                    created[site] += 1
     for name, d in vars_.items():
         if not seen[name] and d in p["mod_vars"] + p["tvars"]:
             problems.append(dict(page="module/m.html", what="declaration-not-displayed", site=None, name=name,
                                  form=d.get("form"), expected=expected_cells(d)))
     stats["vars_seen"] = sum(1 for n in vars_ if seen[n])
-    return problems, dict(stats)
+    out = dict(stats)
+    out["exposed"], out["created"] = dict(exposed), dict(created)
+    return problems, out
 
 
 def run_project(job):
